@@ -90,6 +90,18 @@ fn n_mktable(vm: &mut Vm<Aux>, v: Value) -> Result<Value, ExecutionErrorPayload>
     Ok(Value::Object(t.into_inner()))
 }
 
+/// harness-only host function (not in the VM model): protects its argument with two guards and
+/// releases them first-in-first-out, as a `Vec` of guards over values that repeat an object does;
+/// returns the argument. Guards do not nest: after both are gone the object is an ordinary one.
+fn n_reguard(_vm: &mut Vm<Aux>, v: Value) -> Result<Value, ExecutionErrorPayload> {
+    use cao_lang::vm::runtime::cao_lang_object::ObjectGcGuard;
+    if let Value::Object(o) = v {
+        let guards = vec![ObjectGcGuard::new(o), ObjectGcGuard::new(o)];
+        drop(guards);
+    }
+    Ok(v)
+}
+
 pub fn parse_sched(a: &[&str]) -> cao_lang::verif::GcSchedule {
     use cao_lang::verif::GcSchedule;
     match a.iter().find_map(|x| x.strip_prefix("sched=")) {
@@ -120,6 +132,7 @@ pub fn new_vm(mem: usize, stack: usize, calls: usize) -> Vm<'static, Aux> {
     vm.register_native_function("four", into_f4(n_four)).unwrap();
     vm.register_native_function("mktable", into_f1(n_mktable)).unwrap();
     vm.register_native_function("papply", n_papply).unwrap();
+    vm.register_native_function("reguard", into_f1(n_reguard)).unwrap();
     vm.register_native_function("pcall", into_f2(n_pcall)).unwrap();
     vm.register_native_function("typed3", into_f3(n_typed3)).unwrap();
     vm
@@ -273,6 +286,14 @@ impl Engine for VmEngine {
                 }
                 ops
             },
+            // a card without a value in a value slot pops the EMPTY stack (nil); the run ends with a
+            // SetProperty, whose pop_n leaves its operands behind in the slots above the top: the
+            // second run on the uncleared machine must still read nil
+            vec![
+                "vm new".to_string(),
+                "vm repeat mod([],[fn($6d61696e,[],[setglobal($67,comment($78)),setprop(int(#7),table,int(#0))])],[]) budget=1000".to_string(),
+                "vm repeat mod([],[fn($6d61696e,[],[iftrue(comment($78),setglobal($67,int(#1))),append(int(#9),table)])],[]) budget=1000".to_string(),
+            ],
             // stale slots above the stack height must not be visible after clear: an earlier run
             // leaves 10,20,30 behind (Return with three arguments), the later program reads locals
             // whose only assignments sit in untaken branches
@@ -608,6 +629,10 @@ impl Engine for GcEngine {
             // the key function removes the rows of the iterated table (global alias) and allocates
             run("setvar($74,array([str($6161616161616161),str($626262626262),str($63636363)])),setglobal($67706f70726f7773,readvar($74)),setglobal($67,call($7374642e6d696e5f62795f6b6579,[closure([$6b6579,$76616c],[pop(readvar($67706f70726f7773)),setvar($6a756e6b,str($676172626167652067617262616765)),return(readvar($76616c))]),readvar($74)]))", ""),
             run("setvar($74,array([str($6161616161616161),str($626262626262),str($63636363)])),setglobal($67706f70726f7773,readvar($74)),setglobal($67,call($7374642e736f727465645f62795f6b6579,[closure([$6b6579,$76616c],[pop(readvar($67706f70726f7773)),setvar($6a756e6b,str($676172626167652067617262616765)),return(readvar($76616c))]),readvar($74)]))", ""),
+            // (repaired) a call with too few arguments (known finding K4) makes the callee drop values
+            // of its callers; the caller's own Return then RAISED the stack height back to its frame
+            // offset and stale slots became locals again - freed in the meantime
+            run("setvar($61,str($6161616161616161)),setvar($62,str($6262626262626262)),setvar($63,str($6363636363636363)),setglobal($7230,call($67,[])),setglobal($6f7574,readvar($63))", ",fn($67,[],[call($66,[]),setglobal($6a756e6b,str($676172626167652067617262616765)),return(int(#1))]),fn($66,[$78,$79,$7a],[return(int(#2))])"),
             // a table used as key and mutated afterwards no longer finds its entry; the entry is still stored
             run("setglobal($6b,table),setprop(int(#1),readvar($6b),str($78)),setglobal($74,table),setprop(str($7468652076616c756520737472696e67),readvar($74),readvar($6b)),setprop(int(#2),readvar($6b),str($78)),setglobal($6a756e6b,str($67617262616765)),setprop(int(#1),readvar($6b),str($78)),setglobal($6a756e6b,str($67617262616765)),setglobal($67,getprop(readvar($74),readvar($6b)))", ""),
         ]
@@ -660,7 +685,9 @@ impl Engine for MemEngine {
             let n = rng.range(2, big);
             let family = rng.below(4);
             let payload = |rng: &mut Rng| -> String {
-                match rng.below(4) {
+                match rng.below(5) {
+                    // an object that a host function guarded twice and released (harness-only `reguard`)
+                    4 => format!("callnative($72656775617264,[callnative($6d6b7461626c65,[str(${})])])", hex(&"g".repeat(rng.range(1, 40) as usize))),
                     0 => format!("str(${})", hex(&"x".repeat(rng.range(0, 200) as usize))),
                     1 => "table".to_string(),
                     2 => format!("callnative($6d6b7461626c65,[str(${})])", hex(&"k".repeat(rng.range(1, 40) as usize))),
